@@ -32,6 +32,7 @@ RULES = {
     'R-BITS': ('r_arith', 'rule_BITS', 'default'),
     'R-SMP': ('r_layout', 'rule_SMP', 'default'),
     'R-CMP': ('r_guard', 'rule_CMP', 'default'),
+    'R-INV': ('r_unsafe', 'rule_INV', 'default'),
     'R-SELP': ('r_guard', 'rule_SELP', 'default'),
     'R-NEG': ('r_misc', 'rule_NEG', 'default'),
     'R-HINT': ('r_layout', 'rule_HINT', 'default'),
@@ -114,6 +115,7 @@ TEXT = {
     'R-HINT': 'R-HINT: in RSNarrow::new / RSWide::new the counter tested against the hint period already includes the population of the line being scanned (a variable of the numerator is updated from a popcount in a block dominating the test).',
     'R-SELP': 'R-SELP: select of the three trees uses only checked per-level rank/select whose None is propagated with `?` (no *_unchecked level query, no unwrap).',
     'R-NEG': 'R-NEG: where zeros are found by complementing a word (BIT = false), the complement is taken of the stored word itself, never of a shifted or masked value.',
+    'R-INV': 'R-INV: every call of an unsafe fn made by a safe function is in the reviewed inventory (engine/unsafe_inventory.json, 50 classified sites) or is a slice access dominated by index < len of the same slice; a new unclassified unchecked operation is reported.',
     'R-TAB': 'R-TAB: the compiler-evaluated K_SELECT_IN_BYTE is compared with its definition for all 2048 entries (exhaustive).',
 }
 
@@ -143,7 +145,7 @@ _p('C02', ['R-G', 'R-SIB', 'R-E', 'R-O', 'R-W', 'R-LVL', 'R-TW', 'R-DEL', 'R-LAY
 _p('C03', ['R-G', 'R-SIB', 'R-E', 'R-O', 'R-W', 'R-LVL', 'R-TW', 'R-DEL', 'R-LAY', 'R-BITS', 'R-SPLIT', 'R-HINT', 'R-SELP'], 'other',
    EXPL + 'C03: validation of WT/HWT get/rank/select in both specialisations, symbol carried in the element type, empty state, level-write guard, construction paths.',
    'wavelet-matrix arithmetic, binwt::craft_wm_codes table bounds for degenerate alphabets (loop-carried indices), tie orders')
-_p('C04', ['R-G', 'R-E', 'R-O', 'R-UNS', 'R-SIB', 'R-LAY', 'R-DA', 'R-DBG', 'R-SMP', 'R-CMP', 'R-SELP', 'R-PF'], 'other',
+_p('C04', ['R-G', 'R-E', 'R-O', 'R-UNS', 'R-SIB', 'R-LAY', 'R-DA', 'R-DBG', 'R-SMP', 'R-CMP', 'R-SELP', 'R-PF', 'R-INV'], 'other',
    EXPL + 'C04: every unchecked access is behind the documented guard, empty/default states reach no trap, argument arithmetic is bounded, unchecked API is unsafe, '
    'raw views match layouts.',
    'index arithmetic inside search loops (select_block, select*_subblock, block_predecessor, DArray word scan: sentinel invariants over stored data), CPU feature of _popcnt64, allocation failure')
